@@ -108,6 +108,67 @@ NEEDS = {
  'C20-2A': ('MutableRecord._all_slots cached through an inherited class attribute', 'a parent record class compared/printed before a subclass with extra slots is first used'),
  'C20-2B': ('MapPacket.apply_to_map copies len(pixels) // width whole rows', 'a pixel array that is not a whole number of rows'),
  'C20-2C': ('angles wrapped only on the relative path', 'an absolute yaw or pitch outside [0, 360)'),
+ # round 3
+ 'C01-3A': ('file_object fetched once per read batch in _run', "the server's first encrypted frame already readable right after the encryption request was answered"),
+ 'C01-3B': ('compression state reset in disconnect() instead of _connect()', 'a compressed session ending abnormally, a handler that only calls connect(), a second session without compression'),
+ 'C01-3C': ('frame assembly buffer is a class attribute of PacketReactor', 'two Connections in one process, a frame of one split across reads with a frame of the other in between'),
+ 'C02-3A': ('scalar types pack through an lru_cache keyed by (format, value)', '0.0 then -0.0 (or 0) with the same type'),
+ 'C02-3B': ('String.read decodes with utf-8-sig', 'a string starting with U+FEFF'),
+ 'C02-3C': ('byte-array formats in a 64-entry table, oldest evicted without a lock', 'more than 64 distinct lengths seen, then two threads missing at once'),
+ 'C03-3A': ('VarInt.send builds its output in a module-level buffer', 'two threads encoding at overlapping times'),
+ 'C03-3B': ('bit-offset table memoised lazily on the class, VarLong inherits VarInt\'s', 'a VarInt decoded before the first VarLong, then a VarLong of 2**42 or more'),
+ 'C03-3C': ('peek fast path for buffered streams', 'an io.BufferedReader whose buffer ends inside a multi-byte number'),
+ 'C04-3A': ('Position.send_with_context packs into a class-level bytearray handed to send()', 'two threads encoding positions, or a transport that looks at the buffer later'),
+ 'C04-3B': ('PrefixedArray keeps its context-bound element codec; one RecordArray shared either side of 741', 'two sessions in one process on both sides of protocol 741'),
+ 'C04-3C': ('layout decided by membership in a set built from SUPPORTED instead of KNOWN versions', 'one of ten known-but-unsupported post-1.14 versions'),
+ 'C05-3A': ('packet ids remembered per ConnectionContext', 'one context used to write a class under two versions with different ids'),
+ 'C05-3B': ('class-level table of definitions filled in place after setdefault', 'two threads making the first use of a (class, version) pair at once'),
+ 'C05-3C': ('String.read rejects a length prefix above 32767', 'a string whose UTF-8 form exceeds 32767 bytes'),
+ 'C06-3A': ('reactor tables cached per (state, version), empty dict installed before it is filled', 'two connections entering the same state at the same version for the first time at once'),
+ 'C06-3B': ('clientbound play get_packets memoised per context object', 'one context used for the play state at two versions'),
+ 'C06-3C': ('PluginResponsePacket given the constant id 0x02', 'protocols 385-390, serverbound login'),
+ 'C07-3A': ('one scratch PacketBuffer per thread, reset only around the socket write', 'a write failing during field serialisation, then another write on that thread'),
+ 'C07-3B': ('ServerDifficultyPacket id boundary 721 -> 741', 'protocols 735 and 736: clashes with Chat Message'),
+ 'C07-3C': ("version record '1.15-pre5' given protocol 573", 'protocol 573 (1.15) Join Game'),
+ 'C08-3A': ('ConnectionContext remembers its chronological index', 'a context that outlives initglobals(True) after a record was inserted before its version'),
+ 'C08-3B': ('initglobals(True) skips records whose id was already seen', 'a run-time record re-listing a known id with another flag or number'),
+ 'C08-3C': ('rebuild skipped when the number of records is unchanged', 'an equal-length change of the records, or a legacy edit, then a rebuild'),
+ 'C09-3A': ('default version chosen by numeric max()', 'an allowed set holding a post-1.16.3 pre-release and a later release, and a fallback'),
+ 'C09-3B': ('status() checks for an existing connection before taking the lock', 'two user threads calling status() at overlapping times'),
+ 'C09-3C': ('outgoing queue created once in __init__', 'a server closing the status connection before the request was written, then the fallback login'),
+ 'C10-3A': ('set of answered plugin message ids never cleared', 'two logins on one Connection with the same plugin message id'),
+ 'C10-3B': ('file_object looked up once per read batch', "the server's first encrypted packet readable at the poll right after the encryption request"),
+ 'C10-3C': ('login get_packets mutates a shared module-level set', 'a login at >= 385 before a login below 385 that is disconnected during login'),
+ 'C11-3A': ('one TeleportConfirmPacket object reused by the reactor', 'two position-and-look packets read in one lap'),
+ 'C11-3B': ('compressed frames rejected when size <= threshold', 'a compressed frame of exactly the threshold size'),
+ 'C11-3C': ('incoming-frame buffer is a class attribute', 'two Connections, one blocked mid-frame while the other reads'),
+ 'C12-3A': ('queued write_packet writes directly when the lock is free', 'a queued packet behind a busy lock, then another with the lock free'),
+ 'C12-3B': ('networking thread detaches the whole queue each round', 'a producer preempted between loading the queue attribute and append'),
+ 'C12-3C': ('disconnect() resets the compression options before its flush', 'compression on and a packet still queued at a non-immediate disconnect'),
+ 'C13-3A': ('_react drops the packet when the reading thread is interrupted', 'a disconnect() between the early stage and the reaction of one packet'),
+ 'C13-3B': ('compression switched on when Set Compression is parsed', 'an early listener on SetCompressionPacket that inspects options or ignores it'),
+ 'C13-3C': ('_pop_packet re-queues the packet when the write fails', 'a write failing in the lap in which the server\'s Disconnect is readable'),
+ 'C14-3A': ('outgoing queue created once, cleared in disconnect()', 'a queued reply, a listener raising, a handler calling connect() directly'),
+ 'C14-3B': ('write lock held across exception handling', 'a handler waiting for another thread that calls disconnect()'),
+ 'C14-3C': ('deferred write error re-raised from a finally around the read loop', 'a listener exception while a write error is pending'),
+ 'C15-3A': ('frame buffer kept on the Connection, emptied only after a successful parse', 'end of stream inside a frame body, then another conversation on the same Connection'),
+ 'C15-3B': ("reactor's exception hook called unprotected", 'end of stream in the status phase and the fallback reconnection refused'),
+ 'C15-3C': ('successor takes over only if it saw its predecessor alive', 'a successor scheduled after the predecessor ended, then a second use'),
+ 'C16-3A': ('compression options reset in connect() only', 'status() after a compressed session'),
+ 'C16-3B': ('status() checks for an existing connection before taking the lock', "status() racing another thread's connect()"),
+ 'C16-3C': ('EOF fallback of the negotiation reactor guarded by reactor identity instead of connected', 'a silent server and a user disconnect() during negotiation'),
+ 'C17-3A': ('hash taken over the key re-serialised as canonical SPKI', 'a loadable but non-canonical key encoding'),
+ 'C17-3B': ('AuthenticationToken.join keeps one request dict on the token', 'two overlapping joins on one token'),
+ 'C17-3C': ('sha1 object as a default argument', 'a second hash call in the process'),
+ 'C18-3A': ('one work buffer for both directions of EncryptedSocketWrapper', 'a send and a recv overlapping on one wrapper'),
+ 'C18-3B': ('"last server key" cache in two module globals', 'two logins handling encryption requests at overlapping times'),
+ 'C18-3C': ('EINTR retry loop re-encrypts the plaintext', 'the underlying send() failing with EINTR once'),
+ 'C19-3A': ('error strings spliced in before str.format runs', 'an error object whose text contains a brace'),
+ 'C19-3B': ('authenticate sends a stored client token also with invalidate_previous', 'a token holding a client token and invalidate_previous=True'),
+ 'C19-3C': ('validate tests res.ok instead of 204', 'a 200 reply to /validate'),
+ 'C20-3A': ('Map(icons=[]) shared mutable default', 'two maps alive and a later packet with other icons'),
+ 'C20-3B': ('record equality skips unset fields, the hash does not', 'a record with an unset slot compared with one where it is set'),
+ 'C20-3C': ('multi_attribute_alias setter stores under the container keyword', 'assignment through an alias whose field names differ (feet_y)'),
 }
 
 
